@@ -10,6 +10,7 @@ spot path.
 """
 from __future__ import annotations
 
+import copy
 import math
 import warnings
 from fractions import Fraction
@@ -36,7 +37,13 @@ RULE = ("products = every compatible (underlying class x payoff class) pair: Spo
         "rational) for identity-representation underlyings and the elementary payoffs on small dyadic inputs, 2^-40 relative to "
         "the sum of magnitudes otherwise. Excluded: LookBack (process raises ValueError by design: 'it depends on the process "
         "representation'), PayoffOnTheFly, shapes a class was not written for (Barrier / DefaultTime on 2-d paths, NthSpot / "
-        "multi-name default times on 1-d paths).")
+        "multi-name default times on 1-d paths). Histories: 40 % of the sequences run next to a sibling product of the same classes with "
+        "other terms that is switched to the other representation and values another path before each operation, or between "
+        "underlying_value and __call__ of the object under test. identity probes of the stateless payoffs: Libor curves of 1..6 "
+        "periods on k/64 (zero rates and zero accrual periods included), strike ladders containing a rate of the curve and the "
+        "largest rate; baskets of 1..5 performances with ties, zero weights and best-of weights, a random permutation; ratchets "
+        "with increment 0 and > 0; CDS with affine or exponential discounting, default before / at / after maturity and none; every "
+        "payoff object has valued another argument before the values that are judged, and is asked again afterwards.")
 NOT_PROVED = [
     "butterfly non-negativity is proved only for K1 + K3 <= 2 K2 (butterfly_nonneg_partial); for a middle strike below the "
     "midpoint the accepted payoff is negative (butterfly_neg_of_low_mid, known finding C17-butterfly-asymmetric-negative)",
@@ -44,8 +51,15 @@ NOT_PROVED = [
     "exp(x - log s) = exp(x)/s (real_exp_sub_log proves it for the real pair; no strictly monotone Q -> Q pair satisfies it)",
     "exp/log are an abstract inverse pair in M; numpy's exp/log values enter the correspondence as tables and are compared "
     "at 2^-40, not proved",
-    "Rainbow, CDS, Bond, Cap, Ratchet, Swaption are modelled and compared (they hold no state, so pure_in_path covers them); "
-    "no algebraic identity is claimed or proved for them",
+    "Rainbow, CDS, Bond, Cap, Ratchet, Swaption: proved for all inputs (last section of Proofs/C17.lean) and checked on the "
+    "implementation (c17.identity.rates / rainbow / ratchet / cds): sign, call-put / payer-receiver parity, monotonicity in the strike "
+    "(first coupon, margin, recovery), bond today = 1 and chain rule, payer swaption at strike 0 = (bond - factor)+, cap = sum of "
+    "non-negative caplets, cap = 0 above all rates, ratchet property of the coupons and bounds of the structured leg, CDS affine in "
+    "the spread, bond increasing in every rate, rainbow positively homogeneous. NOT proved / not judged: monotonicity of "
+    "cap/swaption/ratchet in the rates, and whether the weights adj[::-1] (cumulative accruals of the *first* n-k periods on the k-th cash flow) are the "
+    "intended terminal-measure factors - the model mirrors the code",
+    "monotonicity / sign theorems of the rate payoffs assume accrual periods >= 0 and rates >= 0 (CurveOK); parity, chain rule and "
+    "cap = sum of caplets hold without it",
     "product value vs representation for Barrier: the barrier flag is computed from the raw path (log-spot under LOG), "
     "counted as observation c17.observation:barrier_level_compared_with_raw_log_path (the statement only asks for equal "
     "underlying values across representations); pure_in_path holds with the representation as an argument of the pure function",
@@ -345,7 +359,7 @@ def raise_cls(terms, rep, exc):
 
 
 # ----------------------------------------------------------------------------- one sequence (C + history oracle)
-def eval_path(prod, terms, p, calls=1):
+def eval_path(prod, terms, p, calls=1, between=None):
     """(underlying value, payoff value) or the exception.  `calls` = how often the processed path is valued: 0 = the path is
     only passed to underlying_value (the fine/coarse pattern of the multilevel engine passes two paths before it values),
     k >= 2 = the same processed path is valued k times; the value returned is the last one, all of them must be identical"""
@@ -353,6 +367,8 @@ def eval_path(prod, terms, p, calls=1):
     with warnings.catch_warnings(), np.errstate(all="ignore"):
         warnings.simplefilter("ignore")
         u = prod.underlying_value(t, path, jp)
+        if between is not None:
+            between()               # another product works between `underlying_value` and `__call__` (engine with control products)
         v = None
         for k in range(calls):
             vk = prod(u)
@@ -366,11 +382,45 @@ class Revaluation(Exception):
     pass
 
 
+def sibling_terms(terms):
+    """another product of the same classes with different numbers (several objects in one process: a state shared through the
+    class or the module, not the instance, shows when the sibling works between two operations of the object under test)"""
+    t = copy.deepcopy(terms)
+    for k, sh in (("K", 0.375), ("K1", 0.375), ("K2", 0.375), ("K3", 0.375), ("B", 0.625), ("c", 0.375)):
+        if k in t["pay"]:
+            t["pay"][k] = t["pay"][k] + sh
+    if "Ks" in t["pay"]:
+        t["pay"]["Ks"] = [x + 0.375 for x in t["pay"]["Ks"]]
+    u = t["und"]
+    if "a" in u:
+        u["a"] = u["a"] - 0.125
+    if "as" in u:
+        u["as"] = [x - 0.125 for x in u["as"]]
+    if "thr" in u:
+        u["thr"] = [x + 0.125 for x in u["thr"]]
+    if "s0" in u:
+        u["s0"] = [x + 0.25 for x in u["s0"]]
+    t["notional"] = terms["notional"] * 3.0
+    return t
+
+
+def sibling_work(C, terms, p, cur):
+    """the sibling is switched to the *other* representation and values a shifted, time-reversed copy of the path"""
+    other = "log" if cur == "id" else "id"
+    q = dict(p, rows=[[x + 0.75 for x in r][::-1] for r in p["rows"]], jrows=[list(r[::-1]) for r in p["jrows"]])
+    try:
+        C.update(REP[other])
+        eval_path(C, terms, q)
+    except Exception:  # noqa  (the sibling's own value is not under test)
+        pass
+
+
 def run_sequence(ctx, d, model=True):
     terms, ops = d["terms"], d["ops"]
     cls = dict(und=terms["und"]["k"], pay=terms["pay"]["k"])
     is_time = terms["und"]["k"] in TIME_UNDS
     A = make_product(terms)
+    C = make_product(sibling_terms(terms)) if d.get("sibling") else None
     if model:
         ans = ctx.lean(f"new {und_wire(terms['und'])} {pay_wire(terms['pay'], A.payoff)} {w(terms['notional'])}")
         if ans != "ok":
@@ -390,10 +440,17 @@ def run_sequence(ctx, d, model=True):
             continue
         p = op
         scale = 1 + sum(abs(x) for r in p["rows"] for x in r) + sum(abs(x) for x in pay_numbers(terms["pay"]))
+        between = None
+        if C is not None and d["sibling"] == "between":
+            between = lambda: sibling_work(C, terms, p, cur)
+            ctx.branches["c17.path:sibling_worked_between_uv_and_call"] += 1
+        elif C is not None:
+            sibling_work(C, terms, p, cur)
+            ctx.branches["c17.path:sibling_worked_before"] += 1
         # ---- implementation, used object
         calls = int(p.get("calls", 1))
         try:
-            u, v = eval_path(A, terms, p, calls)
+            u, v = eval_path(A, terms, p, calls, between)
             exc = None
         except Revaluation as e:
             ctx.fail("oracle", "c17.history", prefix, {"what": str(e), "op_index": i}, cls=cls)
@@ -559,8 +616,8 @@ def gen_pay(rng, family, d):
     if k == "cds":
         return dict(k=k, R=rng.choice([0.25, 0.375, 0.5]), s=rng.choice([0.0078125, 0.015625, 0.125]),
                     T=rng.choice([0.5, 1.0, 2.0, 4.0]), d0=1.0, d1=-rng.choice([1, 2, 3]) / 64)
-    deltas = [rng.choice([0.25, 0.5, 1.0]) for _ in range(d)]
-    L0 = [rng.randint(1, 8) / 32 for _ in range(d)]
+    deltas = [rng.choice([0.25, 0.5, 1.0, 1.0, 0.5, 0.0 if rng.random() < 0.15 else 0.25]) for _ in range(d)]    # a zero accrual period is legal
+    L0 = [rng.randint(0, 8) / 32 for _ in range(d)]
     if k == "bond":
         return dict(k=k, d=deltas, L0=L0)
     if k == "cap":
@@ -574,6 +631,8 @@ def gen_pay(rng, family, d):
 def gen_terms(rng):
     family = rng.choice(["scalar_flat"] * 4 + ["scalar_2d"] * 2 + ["vector"] * 3 + ["indicator", "time", "time"])
     d = 1 if family == "scalar_flat" else rng.randint(2, 3)
+    if family == "vector" and rng.random() < 0.2:
+        d = 1                                           # a one-rate curve / one-asset basket given as a 1 x (n+1) array
     flat = family == "scalar_flat"
     if family == "scalar_flat":
         u = dict(k=rng.choice(["spot", "spot", "logspot", "asian", "asian", "mean"]))
@@ -627,7 +686,7 @@ def gen_sequence(rng):
                 ops[-1]["calls"] = rng.choice([2, 2, 3])
     if not any(o["op"] == "path" for o in ops):
         ops.append(gen_path(rng, cur, d, flat))
-    return dict(kind="seq", terms=terms, ops=ops)
+    return dict(kind="seq", terms=terms, ops=ops, sibling=rng.choice([False, False, False, "before", "between"]))
 
 
 def directed_sequences(rng):
@@ -917,9 +976,273 @@ def rep_agreement(ctx, d):
                  cls=cls, mirrors_model=mirrors)
 
 
+# ----------------------------------------------------------------------------- S: identities of the stateless multi-underlying payoffs
+# (theorems of the last section of Proofs/C17.lean; references are exact rationals computed here, never another instance of
+# the code under test; every payoff object is used again after other work and must return the identical value)
+F0, F1 = Fraction(0), Fraction(1)
+
+
+def frs(xs):
+    return [fr(float(x)) for x in xs]
+
+
+def qclose(x, q, scale):
+    """float of the implementation vs exact rational reference, 2^-40 relative to `scale`"""
+    x = float(x)
+    return math.isfinite(x) and abs(fr(x) - q) <= Fraction(1, 2 ** 40) * max(F1, abs(Fraction(scale)))
+
+
+def curve_ref(dl, L):
+    """exact accruals 1 + delta L, their cumulative products, and the reversed cumulative products (`adj[::-1]`)"""
+    acc = [1 + a * b for a, b in zip(frs(dl), frs(L))]
+    cp, p = [], F1
+    for a in acc:
+        p *= a
+        cp.append(p)
+    return acc, cp, cp[::-1]
+
+
+def arr(x):
+    return np.array(x, dtype=float)
+
+
+def same_again(ctx, probe, d, cls, f, x, first):
+    """object reuse: the same payoff object on the same argument after other evaluations"""
+    again = f(x)
+    if not identical(first, again):
+        ctx.fail("oracle", "c17.history", d, {"what": f"{probe}: second evaluation of the same payoff object on the same argument differs",
+                                              "first": repr(first), "again": repr(again)}, cls=cls)
+        return False
+    return True
+
+
+def identity_rates(ctx, d):
+    """Bond / Swaption / Cap on one Libor curve: bond_today, bond_pos, bond_chain, bond_monotone_rates, swaption_parity, swaption_nonneg,
+    swaption_monotone_strike, swaption_zero_strike_bond, cap_nonneg, cap_antitone_strike, cap_zero_of_rates_le,
+    cap_eq_sum_caplets, cap_single_period"""
+    dl, L0, L, L2, Ks = d["d"], d["L0"], d["L"], d["L2"], sorted(d["Ks"])
+    n = len(dl)
+    ctx.count("c17.identity.rates", d, branch=f"n{n}")
+    acc0, cp0, _ = curve_ref(dl, L0)
+    acc, cp, rev = curve_ref(dl, L)
+    acc2, cp2, _ = curve_ref(dl, L2)
+    factor = 1 / cp0[-1]
+    scale = cp[-1] * factor + 1
+    fail = lambda name, pay, detail: ctx.fail("oracle", "c17.identity." + name, d, detail, cls=dict(pay=pay))
+    try:
+        with np.errstate(all="ignore"):
+            # two objects of every class exist before any of them is evaluated
+            bond, bond_mid = po.Bond(arr(L0), arr(dl)), po.Bond(arr(L), arr(dl))
+            swp = {(K, p): po.Swaption(arr(L0), arr(dl), K, po.SwaptionType.PAYER if p else po.SwaptionType.RECEIVER)
+                   for K in Ks + [0.0] for p in (True, False)}
+            caps = {K: po.Cap(arr(L0), arr(dl), K) for K in Ks}
+            for o in [bond_mid] + list(swp.values()) + list(caps.values()):
+                o(arr(L2))                                   # other work first: the values judged below come from used objects
+            b_today, b1, b2 = float(bond(arr(L0))), float(bond(arr(L))), float(bond(arr(L2)))
+            chain = float(bond_mid(arr(L2)))
+            if not same_again(ctx, "Bond", d, dict(pay="bond"), lambda x: bond(arr(x)), L, bond(arr(L))):
+                return
+            pay = {K: float(swp[(K, True)](arr(L))) for K in Ks + [0.0]}
+            rec = {K: float(swp[(K, False)](arr(L))) for K in Ks + [0.0]}
+            for K in Ks[:1]:
+                swp[(K, True)](arr(L2))
+                if not same_again(ctx, "Swaption", d, dict(pay="swp"), lambda x: swp[(K, True)](arr(x)), L, swp[(K, True)](arr(L))):
+                    return
+            capv = {K: float(caps[K](arr(L))) for K in Ks}
+            for K in Ks[:1]:
+                caps[K](arr(L2))
+                if not same_again(ctx, "Cap", d, dict(pay="cap"), lambda x: caps[K](arr(x)), L, caps[K](arr(L))):
+                    return
+    except Exception as e:  # noqa
+        ctx.fail("oracle", "c17.raises", d, {"raises": f"{type(e).__name__}: {e}"}, cls=dict(und="libors", pay="rates", rep="id"))
+        return
+    # ---- Bond
+    if not (qclose(b_today, F1, 1) and b1 > 0 and qclose(b1, cp[-1] * factor, scale)):
+        return fail("bond", "bond", {"bond(today)": b_today, "bond(L)": b1, "expected": float(cp[-1] * factor),
+                                    "what": "bond on today's curve != 1, or bond not positive / not prod(1+dL)/prod(1+dL0)"})
+    if not qclose(b1 * chain, fr(b2), float(scale) * max(1.0, abs(b2))):
+        return fail("bond", "bond", {"bond(L0->L)*bond(L->L2)": b1 * chain, "bond(L0->L2)": b2, "what": "bond values do not chain"})
+    up = list(L)
+    up[d.get("bump", 0) % n] += 0.03125                     # bond_monotone_rates: one rate raised
+    with np.errstate(all="ignore"):
+        b_up = float(bond(arr(up)))
+    if b_up < b1:
+        return fail("bond", "bond", {"bond(L)": b1, "bond(one rate raised)": b_up, "what": "bond not increasing in the rates"})
+    # ---- Swaption
+    annuity = sum(a * b for a, b in zip(frs(dl), rev))
+    for i, K in enumerate(Ks + [0.0]):
+        swap = (cp[-1] - 1 - fr(K) * annuity) * factor
+        sc = (cp[-1] + 1 + abs(fr(K)) * annuity) * factor
+        if pay[K] < 0 or rec[K] < 0 or pay[K] * rec[K] != 0.0 or not qclose(pay[K] - rec[K], swap, sc):
+            return fail("swaption_parity", "swp", {"K": K, "payer": pay[K], "receiver": rec[K], "swap": float(swap),
+                                                   "what": "payer - receiver != swap value, negative value, or both in the money"})
+    for K, K2 in zip(Ks, Ks[1:]):
+        if pay[K2] > pay[K] + 1e-15 * abs(pay[K]) or rec[K] > rec[K2] + 1e-15 * abs(rec[K2]):
+            return fail("swaption_monotone", "swp", {"K": K, "K'": K2, "payer": [pay[K], pay[K2]], "receiver": [rec[K], rec[K2]],
+                                                     "what": "payer not decreasing / receiver not increasing in the strike"})
+    if not qclose(pay[0.0], max(cp[-1] * factor - factor, F0), scale):
+        return fail("swaption_bond", "swp", {"payer(K=0)": pay[0.0], "max(bond - factor, 0)": float(max(cp[-1] * factor - factor, F0))})
+    # ---- Cap
+    for K in Ks:
+        terms = [dk * max(lk - fr(K), F0) * rk * factor for dk, lk, rk in zip(frs(dl), frs(L), rev)]
+        if capv[K] < 0 or not qclose(capv[K], sum(terms), sum(abs(t) for t in terms) + 1):
+            return fail("cap_caplets", "cap", {"K": K, "cap": capv[K], "caplets": [float(t) for t in terms],
+                                               "what": "cap negative or != sum of its caplets"})
+        if K >= max(L) and capv[K] != 0.0:
+            return fail("cap_caplets", "cap", {"K": K, "cap": capv[K], "what": "cap with no rate above the strike is not 0"})
+    for K, K2 in zip(Ks, Ks[1:]):
+        if capv[K2] > capv[K] + 1e-15 * abs(capv[K]):
+            return fail("cap_monotone", "cap", {"K": K, "K'": K2, "cap": [capv[K], capv[K2]], "what": "cap not decreasing in the strike"})
+
+
+def identity_rainbow(ctx, d):
+    """rainbow_nonneg, rainbow_parity, rainbow_monotone_strike, rainbow_perm, rainbow_single, rainbow_homogeneous"""
+    wts, u, Ks, perm = d["w"], d["u"], sorted(d["Ks"]), d["perm"]
+    ctx.count("c17.identity.rainbow", d, branch=f"n{len(u)}" + (":ties" if len(set(u)) < len(u) else ""))
+    basket = sum(a * b for a, b in zip(frs(wts), sorted(frs(u), reverse=True)))      # weights run from the best performance down
+    sc = sum(abs(a * b) for a, b in zip(frs(wts), sorted(frs(u), reverse=True)))
+    fail = lambda name, detail: ctx.fail("oracle", "c17.identity." + name, d, detail, cls=dict(pay="rb"))
+    try:
+        objs = {(K, c): po.Rainbow(arr(wts), K, po.PayoffType.CALL if c else po.PayoffType.PUT) for K in Ks for c in (True, False)}
+        for o in objs.values():
+            o(arr([x + 0.5 for x in u][::-1]))               # other work first
+        call = {K: float(objs[(K, True)](arr(u))) for K in Ks}
+        put = {K: float(objs[(K, False)](arr(u))) for K in Ks}
+        shuffled = float(objs[(Ks[0], True)](arr([u[i] for i in perm])))
+        if not same_again(ctx, "Rainbow", d, dict(pay="rb"), lambda x: objs[(Ks[0], True)](arr(x)), u, objs[(Ks[0], True)](arr(u))):
+            return
+        single = [float(po.Rainbow(arr([1.0]), Ks[0], t)(arr([u[0]]))) for t in (po.PayoffType.CALL, po.PayoffType.PUT)]
+        van = [float(po.Vanilla(Ks[0], t)(np.float64(u[0]))) for t in (po.PayoffType.CALL, po.PayoffType.PUT)]
+    except Exception as e:  # noqa
+        ctx.fail("oracle", "c17.raises", d, {"raises": f"{type(e).__name__}: {e}"}, cls=dict(und="perf", pay="rb", rep="id"))
+        return
+    for K in Ks:
+        if call[K] < 0 or put[K] < 0 or call[K] * put[K] != 0.0 or not qclose(call[K] - put[K], basket - fr(K), sc + abs(fr(K))):
+            return fail("rainbow_parity", {"K": K, "call": call[K], "put": put[K], "basket": float(basket),
+                                           "what": "call - put != weighted basket - strike, or a negative value"})
+    for K, K2 in zip(Ks, Ks[1:]):
+        if call[K2] > call[K] or put[K] > put[K2]:
+            return fail("rainbow_monotone", {"K": K, "K'": K2, "call": [call[K], call[K2]], "put": [put[K], put[K2]]})
+    for c in (2.0, 0.5):                                     # rainbow_homogeneous (scaling by a power of two is exact in floats)
+        for t, ref in ((po.PayoffType.CALL, call[Ks[0]]), (po.PayoffType.PUT, put[Ks[0]])):
+            scaled = float(po.Rainbow(arr(wts), c * Ks[0], t)(arr([c * x for x in u])))
+            if scaled != c * ref:
+                return fail("rainbow_homogeneous", {"c": c, "rainbow(c K)(c u)": scaled, "c rainbow(K)(u)": c * ref})
+    if shuffled != call[Ks[0]]:
+        return fail("rainbow_perm", {"value": call[Ks[0]], "value on permuted underlyings": shuffled, "perm": perm})
+    if single != van:
+        return fail("rainbow_single", {"rainbow([1])": single, "vanilla": van})
+
+
+def identity_ratchet(ctx, d):
+    """ratchet_funding_split, ratchet_monotone, ratchet_structured_bounds"""
+    dl, L, g, m, sp, inc, first = d["d"], d["L"], d["g"], d["m"], d["s"], d["inc"], d["first"]
+    n = len(dl)
+    ctx.count("c17.identity.ratchet", d, branch=f"n{n}:" + ("inc0" if inc == 0 else "inc+"))
+    acc, cp, rev = curve_ref(dl, L)
+    fail = lambda name, detail: ctx.fail("oracle", "c17.identity." + name, d, detail, cls=dict(pay="rat"))
+    mk = lambda g_, m_, f_=first: po.Ratchet(arr(dl), g_, m_, sp, inc, f_)
+    try:
+        objs = [mk(g, m), mk(0.0, 0.0), mk(g, m + 0.125), mk(g, m, first + 0.25)]
+        for o in objs:
+            o(arr([x + 0.25 for x in L]))                    # other work first
+        v, v00, vm, vf = (float(o(arr(L))) for o in objs)
+        objs[0](arr([x + 0.125 for x in L]))
+        if not same_again(ctx, "Ratchet", d, dict(pay="rat"), lambda x: objs[0](arr(x)), L, objs[0](arr(L))):
+            return
+    except Exception as e:  # noqa
+        ctx.fail("oracle", "c17.raises", d, {"raises": f"{type(e).__name__}: {e}"}, cls=dict(und="libors", pay="rat", rep="id"))
+        return
+    funding = sum(dk * (fr(g) * lk + fr(m)) * rk for dk, lk, rk in zip(frs(dl), frs(L), rev))
+    sumadj = sum(rev)
+    sc = (abs(fr(first)) + n * abs(fr(inc)) + max(frs(L)) + fr(sp) + 1) * sumadj * (1 + abs(fr(g)) + abs(fr(m)))
+    if not qclose(v00 - v, funding, sc):
+        return fail("ratchet_funding", {"ratchet(0,0) - ratchet(g,m)": v00 - v, "funding leg": float(funding)})
+    if vm > v + 2.0 ** -40 * float(sc) or vf < v - 2.0 ** -40 * float(sc):
+        return fail("ratchet_monotone", {"value": v, "margin raised": vm, "first coupon raised": vf,
+                                         "what": "not decreasing in the margin / not increasing in the first coupon"})
+    tol = Fraction(1, 2 ** 40) * sc
+    if not (fr(first) * sumadj - tol <= fr(v00) <= (fr(first) + n * fr(inc)) * sumadj + tol):
+        return fail("ratchet_bounds", {"structured leg": v00, "lower": float(fr(first) * sumadj),
+                                       "upper": float((fr(first) + n * fr(inc)) * sumadj)})
+
+
+def cds_df(d):
+    if d["df"] == "affine":
+        return affine_df(d["d0"], d["d1"])
+    r = d["r"]
+    return lambda t: math.exp(-r * t)
+
+
+def identity_cds(ctx, d):
+    """cds_affine_spread, cds_after_maturity, cds_protection, cds_antitone_recovery on one CDS payoff"""
+    R, s, T, taus = d["R"], d["s"], d["T"], d["taus"]
+    ctx.count("c17.identity.cds", d, branch=d["df"])
+    df = cds_df(d)
+    fail = lambda name, detail: ctx.fail("oracle", "c17.identity." + name, d, detail, cls=dict(pay="cds"))
+    tv = lambda t: math.inf if t == "inf" else t
+    try:
+        with np.errstate(all="ignore"):
+            objs = {k: po.CDS(rr, ss, T, df) for k, (rr, ss) in
+                    dict(base=(R, s), zero=(R, 0.0), one=(R, 1.0), twice=(R, 2 * s), rec=(min(R + 0.125, 1.0), s)).items()}
+            for o in objs.values():
+                o.evaluate(T / 3)                            # other work first
+            vals = {k: [float(o.evaluate(tv(t))) for t in taus] for k, o in objs.items()}
+            if not same_again(ctx, "CDS", d, dict(pay="cds"), lambda t: objs["base"].evaluate(t), tv(taus[0]), objs["base"].evaluate(tv(taus[0]))):
+                return
+            v_inf = float(objs["base"].evaluate(math.inf))
+    except Exception as e:  # noqa
+        ctx.fail("oracle", "c17.raises", d, {"raises": f"{type(e).__name__}: {e}"}, cls=dict(und="dt", pay="cds", rep="id"))
+        return
+    for i, t in enumerate(taus):
+        tau = tv(t)
+        if tau == T:                                        # default exactly at maturity: nothing is stated, finite value only
+            ctx.branches["c17.dont_care:cds_default_at_maturity"] += 1
+            if not all(math.isfinite(vals[k][i]) for k in vals):
+                return fail("cds", {"tau": t, "what": "non-finite value for a default at maturity"})
+            continue
+        base, zero, one, twice, rec = (vals[k][i] for k in ("base", "zero", "one", "twice", "rec"))
+        annuity = zero - one
+        sc = abs(zero) + abs(annuity) * (1 + 2 * abs(s)) + 1
+        if not (abs(base - (zero - s * annuity)) <= 2.0 ** -40 * sc and abs(twice - (zero - 2 * s * annuity)) <= 2.0 ** -40 * sc):
+            return fail("cds_affine", {"tau": t, "v(s)": base, "v(0)": zero, "v(1)": one, "v(2s)": twice, "what": "payoff not affine in the spread"})
+        if tau > T and base != v_inf:
+            return fail("cds_after_maturity", {"tau": t, "value": base, "value(no default)": v_inf})
+        want = (1 - R) * df(tau) / df(T) if tau <= T else 0.0
+        if abs(zero - want) > 2.0 ** -40 * (abs(want) + 1):
+            return fail("cds_protection", {"tau": t, "value at zero spread": zero, "(1-R) df(tau)/df(T)": want})
+        if rec > base + 2.0 ** -40 * sc:
+            return fail("cds_recovery", {"tau": t, "value": base, "value at higher recovery": rec})
+
+
+LEAN_VALUES = [  # the literal `example`s at the end of Proofs/C17.lean, replayed on the implementation
+    ("bond", lambda: po.Bond(arr([1 / 32, 1 / 16]), arr([0.5, 1.0]))(arr([1 / 16, 1 / 8])), Fraction(1188, 1105)),
+    ("cap", lambda: po.Cap(arr([1 / 32, 1 / 16]), arr([0.5, 1.0]), 1 / 16)(arr([1 / 16, 1 / 8])), Fraction(66, 1105)),
+    ("swp", lambda: po.Swaption(arr([1 / 32, 1 / 16]), arr([0.5, 1.0]), 1 / 16, po.SwaptionType.PAYER)(arr([1 / 16, 1 / 8])), Fraction(487, 8840)),
+    ("swp", lambda: po.Swaption(arr([1 / 32, 1 / 16]), arr([0.5, 1.0]), 1 / 16, po.SwaptionType.RECEIVER)(arr([1 / 16, 1 / 8])), Fraction(0)),
+    ("rat", lambda: po.Ratchet(arr([0.5, 1.0]), 1.0, 1 / 16, 1 / 8, 1 / 16, 0.25)(arr([1 / 16, 1 / 8])), Fraction(1155, 4096)),
+    ("rb", lambda: po.Rainbow(arr([1.0]), 1.0, po.PayoffType.CALL)(arr([1.5])), Fraction(1, 2)),
+    ("rat_coupons_negative_increment", lambda: po.Ratchet(arr([1.0]), 0.0, 0.0, 0.0, -1.0, 1.0)(arr([0.0])), Fraction(0)),
+]
+
+
+def identity_lean_values(ctx, d):
+    name, f, want = LEAN_VALUES[d["i"]]
+    ctx.count("c17.identity.lean_values", d, branch=name)
+    try:
+        got = float(f())
+    except Exception as e:  # noqa
+        ctx.fail("oracle", "c17.raises", d, {"raises": f"{type(e).__name__}: {e}"}, cls=dict(und="libors", pay=name, rep="id"))
+        return
+    if not qclose(got, want, abs(want) + 1):
+        ctx.fail("corr", "c17.lean_values", d, {"name": "literal example of Proofs/C17.lean vs the implementation", "which": name,
+                                                "impl": got, "lean": str(want)}, cls=dict(pay=name))
+
+
 PROBES = {"seq": run_sequence, "parity": identity_vanilla, "callspread": identity_callspread, "butterfly": identity_butterfly,
           "digital": identity_digital, "ki_ko": identity_barrier, "asian": identity_asian, "default": identity_default,
-          "notional": identity_notional, "rep": rep_agreement}
+          "notional": identity_notional, "rep": rep_agreement, "rates": identity_rates, "rainbow": identity_rainbow,
+          "ratchet": identity_ratchet, "cds": identity_cds, "lean_values": identity_lean_values}
 
 
 def gen_identity(rng, kind):
@@ -959,10 +1282,43 @@ def gen_identity(rng, kind):
     if kind == "rep":
         terms, d, flat = gen_terms(rng)
         return dict(kind=kind, terms=terms, path=gen_path(rng, "log", d, flat))
+    if kind == "rates":
+        n = rng.choice([1, 1, 2, 3, 4, 6])
+        dl = [rng.choice([0.25, 0.5, 1.0, 1.0, 0.0 if rng.random() < 0.1 else 0.5]) for _ in range(n)]
+        curve = lambda: [rng.choice([0, 1, 2, 3, 5, 8, 13]) / 64 for _ in range(n)]
+        L = curve()
+        Ks = sorted({rng.randint(0, 16) / 64 for _ in range(rng.randint(2, 4))} | ({rng.choice(L)} if rng.random() < 0.4 else set())
+                    | ({max(L), max(L) + 1 / 64} if rng.random() < 0.3 else set()))
+        return dict(kind=kind, d=dl, L0=curve(), L=L, L2=curve(), Ks=[K for K in Ks if K > 0] or [1 / 64], bump=rng.randrange(n))
+    if kind == "rainbow":
+        n = rng.choice([1, 2, 3, 3, 4, 5])
+        u = [g8(rng, 0.25, 3) for _ in range(n)]
+        if n > 1 and rng.random() < 0.3:
+            u[1] = u[0]                                  # ties among the performances
+        wts = [rng.randint(0, 8) / 8 for _ in range(n)]
+        if rng.random() < 0.2:
+            wts = [1.0] + [0.0] * (n - 1)               # best-of
+        perm = list(range(n))
+        rng.shuffle(perm)
+        return dict(kind=kind, w=wts, u=u, Ks=sorted({strike(rng, 0.25, 3) for _ in range(3)}), perm=perm)
+    if kind == "ratchet":
+        n = rng.choice([1, 2, 3, 4, 6])
+        return dict(kind=kind, d=[rng.choice([0.25, 0.5, 1.0]) for _ in range(n)], L=[rng.randint(0, 13) / 64 for _ in range(n)],
+                    g=rng.choice([0.0, 0.5, 1.0, 2.0]), m=rng.randint(0, 4) / 16, s=rng.randint(0, 8) / 16,
+                    inc=rng.choice([0, 0, 1, 2, 4]) / 16, first=rng.randint(0, 16) / 16)
+    if kind == "cds":
+        T = rng.choice([0.5, 1.0, 2.0, 4.0])
+        taus = ["inf", T * rng.choice([1.25, 1.5, 3.0]), T * rng.choice([0.125, 0.25, 0.5, 0.75]), T * rng.choice([0.875, 0.9375, 1.0])]
+        rng.shuffle(taus)
+        base = dict(kind=kind, R=rng.choice([0.0, 0.25, 0.375, 0.5, 0.875]), s=rng.choice([0.0, 0.0078125, 0.015625, 0.125]), T=T, taus=taus)
+        if rng.random() < 0.5:
+            return dict(base, df="affine", d0=1.0, d1=-rng.choice([1, 2, 3]) / 64)
+        return dict(base, df="exp", r=rng.choice([0.005, 0.02, 0.08, 1e-6]))
     raise ValueError(kind)
 
 
-IDENTITY_KINDS = ["parity", "callspread", "butterfly", "digital", "ki_ko", "asian", "default", "notional", "rep"]
+IDENTITY_KINDS = ["parity", "callspread", "butterfly", "digital", "ki_ko", "asian", "default", "notional", "rep", "rates", "rainbow",
+                  "ratchet", "cds"]
 
 
 def lean_witnesses():
@@ -989,6 +1345,8 @@ def run(ctx):
         run_sequence(ctx, d)
     for d in ids:
         PROBES[d["kind"]](ctx, d)
+    for i in range(len(LEAN_VALUES)):
+        identity_lean_values(ctx, dict(kind="lean_values", i=i))
     for d in directed_sequences(rng):
         run_sequence(ctx, d)
     for _ in range(ctx.n(260, 2600)):
